@@ -18,7 +18,7 @@ Agrees(obs, d) ==
          /\ d.kind = "ok"
          /\ d.file = obs.file
          /\ d.rules = obs.rules
-         /\ d.tree = obs.tree
+         /\ Strip(d.tree) = obs.tree
     [] obs.kind = "err" -> d.kind = "err" /\ d.e \notin PanicKinds
     [] obs.kind = "panic" -> d.kind = "err" /\ d.e \in PanicKinds
     [] OTHER -> FALSE
